@@ -626,7 +626,7 @@ pub fn check(case: &Case, ctx: &mut CaseCtx) {
     w.finish();
 }
 
-fn strategy() -> BoxedStrategy<Case> {
+pub fn strategy() -> BoxedStrategy<Case> {
     let sel = prop_oneof![
         2 => Just(Sel::All),
         1 => Just(Sel::V4),
